@@ -73,8 +73,9 @@ def load_score(filename: PathLike, force_note_ids="keep") -> Score:
         with urllib.request.urlopen(url) as response:
             data = response.read()
 
-        # Extract the file extension from the URL
-        extension = os.path.splitext(url)[-1]
+        # Extract the file extension from the URL (case-insensitive, as for
+        # local files)
+        extension = os.path.splitext(url)[-1].lower()
 
         # Create a temporary file
         temp_file = tempfile.NamedTemporaryFile(suffix=extension, delete=True)
